@@ -286,6 +286,12 @@ def check_params(pdk, spec, call):
             v = get("nf")
             if v is None or val(v) != kw["nf"]:
                 return f"nf {kw['nf']} reached the device as {v!r}"
+    if pdk == "sky130" and cls in ("Res2", "Res3") and "_PREC_" in kw.get("model", "") and "l" in kw:
+        # documented: precision resistors have a fixed width and take their length in microns
+        v = get("l")
+        got = Fraction(v.number) * Fraction(10) ** v.prefix.value if isinstance(v, h.Prefixed) else v
+        if got != Fraction(kw["l"]):
+            return f"precision resistor: given l={kw['l']}u reached the device as {v!r} (documented unit: microns)"
     return None
 
 
